@@ -12,7 +12,7 @@ from engine import BaseEngine, Verdict
 class Engine(BaseEngine):
     prop = "C14"
     kind = "schedule"
-    profiles = ("debug",)
+    profiles = ("debug", "release")
     rule = ("2-4 real threads share one Store; each issues 1-3 operations (stores - the same event from several threads, events competing for "
             "one replaceable address, distinct events; removals; queries that match them). A schedule controller built on the verif points parks "
             "every thread at every point and releases one at a time (seeded choice, switch probability 5%..60%), never releasing a thread into the "
@@ -111,6 +111,11 @@ class Engine(BaseEngine):
                      + [self.make_case(rng, free=True) for _ in range(nfree)])
             lines = [c[0][1] for c in cases]
             outs = C.run_lines(C.harness_exe("debug"), lines, env=env, shards=8)
+            # the free-running cases once more in the release profile: 4 MiB growth chunks, so no growth step
+            # (and no remap) happens during these runs - a death there has nothing to do with the remap hazard
+            free_lines = [l for (g, l), _m in cases if g == "free"]
+            free_rel = C.run_lines(C.harness_exe("release"), free_lines, env=env, shards=8)
+            rel_of = dict(zip(free_lines, free_rel))
             # sequential replays on the model, in linearization order
             mlines, metas = [], []
             for ((gcls, line), meta), o in zip(cases, outs):
@@ -123,6 +128,17 @@ class Engine(BaseEngine):
             mouts = C.run_lines(os.path.join(C.RUNNER, "runner.exe"), mlines)
             for ((gcls, line), meta), o, lin, mo in zip(cases, outs, metas, mouts):
                 v = self.judge_case(gcls, meta, o, lin, mo)
+                if gcls == "free":
+                    if not o.startswith("conc sched=") and re.match(r"PROCESS-DIED rc=-(11|7)\b", o):
+                        # died with SIGSEGV/SIGBUS in the debug profile (2 KiB chunks: the map grows and may be remapped
+                        # many times during the run) while readers scan it: the recorded remap hazard
+                        v = Verdict(oracle_ok=False, cls="free-run-died-during-growth",
+                                    detail="free-running debug-profile run died (%s) while the event map was growing under concurrent readers" % o[:24], outcome="died-growth")
+                    elif v.oracle_ok and v.corr_ok:
+                        v2 = self.judge_case(gcls, meta, rel_of[line], None, "noop")
+                        if not (v2.oracle_ok and v2.corr_ok):
+                            v2.detail = "[release] " + v2.detail
+                            v = v2
                 key = "%s/%s" % (gcls, v.outcome)
                 dist[key] = dist.get(key, 0) + 1
                 sched = re.search(r"sched=(\S*)", o)
@@ -207,7 +223,10 @@ class Engine(BaseEngine):
         removed = any(o == "remove " + sid for p in meta["progs"] for o in p)
         in_setup = any(o.startswith("store ") and o.split(" ")[1] == sid for o in meta["setup"])
         oks = [x for x in subs if resp.get(x, "").startswith("ok")]
-        if subs and not removed and not in_setup and meta["shared"]["kind"] == 1 and len(oks) != 1:
+        # a deletion request naming the event anywhere in the run makes "refused as deleted" a legitimate answer
+        hexid = meta["shared"]["id"].hex()
+        del_named = any(o.startswith("store ") and hexid.encode().hex() in o for p in list(meta["progs"]) + [meta["setup"]] for o in p)
+        if subs and not removed and not in_setup and not del_named and meta["shared"]["kind"] == 1 and len(oks) != 1:
             return Verdict(oracle_ok=False, cls="not-exactly-one-winner", detail="%d of %d simultaneous submissions of one event succeeded" % (len(oks), len(subs)), outcome="winners")
         final = out.split(" final=", 1)[1] if " final=" in out else ""
         fo = re.search(r"stats=(\d+),(\d+),(\d+),(\d+),(\d+)", final)
